@@ -54,9 +54,19 @@ def gen_store(rng):
             t += rng.choice([0, 0, 1, 1, 2, 5])
             adds.append([i + 1, t])
         # random-replacement buffers: with probability < 1 the timestamp window (max_queue_size) is longer than the buffer
-        users.append({"kind": kind, "cap1": cap1, "cap2": cap2, "adds": adds, "update_each": rng.random() < 0.3,
-                      "p": rng.choice([1.0, 1.0, 0.5, 0.25])})
-    ts = sorted({t for u in users for _, t in u["adds"]})
+        u = {"kind": kind, "cap1": cap1, "cap2": cap2, "adds": adds, "update_each": rng.random() < 0.3,
+             "p": rng.choice([1.0, 1.0, 0.5, 0.25])}
+        if kind in ("seq", "dseq") and rng.random() < 0.5:
+            # load into a LARGER buffer sometimes, and let further samples arrive after the load
+            if rng.random() < 0.5:
+                u["cap2"] = cap1 + rng.choice([1, 2, 5])
+            m, mt = [], t
+            for j in range(rng.choice([1, cap1, 2 * u["cap2"] + 1])):
+                mt += rng.choice([0, 1, 1, 3])
+                m.append([1000 + j, mt])
+            u["more"] = m
+        users.append(u)
+    ts = sorted({t for u in users for _, t in u["adds"] + u.get("more", [])})
     probes = sorted({p for t in ts for p in (t - 1, t, t + 1)} | {-5, 10**6})[:40]
     ck = {"scale": rng.choice([0.5, 1.0, 2.0, 4.0]), "raw_a": float(rng.choice([0, 100, 12345])), "adv1": rng.choice([0.0, 0.5, 3.0, 100.25]),
           "raw_b": float(rng.choice([0, 7, 5000, 99999])), "scale_b": rng.choice([0.5, 1.0, 2.0]), "adv2": rng.choice([0.0, 0.25, 1.5, 64.0]),
@@ -120,6 +130,10 @@ def split(case, obs):
             # a random-replacement buffer's retained set is random once it had to replace: the model takes what it held at the save
             ids = [x[0] for x in u["adds"]] if KIND[u["kind"]] == "KSeq" else b["items"]
             out.append(f"(CUser {cfg} {cl(cz(x) for x in ids)} {cl(cz(x[1]) for x in u['adds'])} {cl(cz(p) for p in case['probes'])} {cuobs(b)} {cuobs(a)})")
+            if u.get("more") and obs["after"].get("more_users"):
+                m = obs["after"]["more_users"][i]
+                out.append(f"(CMore {cfg} {cl(cz(x) for x in ids)} {cl(cz(x[1]) for x in u['adds'])} {cl(cz(p) for p in case['probes'])} "
+                           f"{cl(cz(x[0]) for x in u['more'])} {cl(cz(x[1]) for x in u['more'])} {cuobs(m)})")
         pairs = whole_pairs(obs)
         af = obs["after"]
         out.append(f"(CWhole {cl(f'({cz(x)}, {cz(y)})' for x, y in pairs)} {q(obs['before']['clock'])} {q(af['clock'])} {q(af['clock_later'])} {q(af['expect_later'])})")
@@ -208,6 +222,12 @@ def signature(case, obs):
             return "inference-parameters"
         if b["agents"] != a["agents"]:
             return "nested-component"
+        if a.get("more_users"):
+            for u, y, m in zip(case["users"], a["users"], a["more_users"]):
+                if u.get("more"):
+                    exp = (y["items"] + [x[0] for x in u["more"]])[-u["cap2"]:]
+                    if m["items"] != exp:
+                        return "arrivals-after-load:buffer"
         for u, x, y in zip(case["users"], b["users"], a["users"]):
             if u["cap1"] == u["cap2"] and x["q"] == y["q"]:
                 if x["items"] != y["items"] or x["len"] != y["len"]:
